@@ -101,6 +101,22 @@ CLAIMED.update(
     }
 )
 
+CLAIMED.update(
+    {
+        "C13": (
+            "WHO-MAY on the covered map, GUARD-DOM of the archive insert, truth-table evaluation of the replacement rule over its atoms, capacity path queries in MIOPopulation, goal-manager shape",
+            "Decides the structural clauses 'covered only grows' and 'replaced only by a covering test that is error-free where the old one was not, or strictly "
+            "shorter': CoverageArchive._covered is inserted into only by update and cleared only by reset (no caller on the search path); the insert is dominated by "
+            "`covers and (best is None or _is_better_than_current(best, candidate))` with arguments in that order and the running best tracks the insert; "
+            "_is_better_than_current (both archives) is evaluated over all 192 states of its atoms and must equal the rule of the property; MIOPopulation grows only "
+            "under len<capacity or after a reset to one solution, never rewrites capacity/solutions of a covered population, and is_covered requires exactly one solution; "
+            "the DynaMOSA goal manager carries over every uncovered goal. Whether an archived test still covers its goal when re-executed is not decided.",
+            "Trusts the CFG builder and the boolean-formula extractor (sa/engine/prop.py); atoms of the replacement rule are interpreted by a table in sa/checks/c13.py.",
+            "DESIGN.md §3 C13",
+        ),
+    }
+)
+
 NOT_APPLICABLE: dict[str, str] = {
     "C06": "Correctness of the post-dominator/CDG construction on every code object is functional correctness of a graph "
     "algorithm; no shape of the code implies it and no sound static argument in reach bounds 'all code objects'.",
